@@ -18,6 +18,7 @@ from harness.core import CaseResult, Fail
 
 DXS = [1.0, 0.1, 1.0 / 3.0]
 EXTREME_DXS = [1e-3, 250.0]
+AMPLITUDES = [1e-8, 1e-20, 1e10]
 
 
 def neumann_matrix(shape, dx):
@@ -86,7 +87,9 @@ def case_basis(shape, dx, dtype):
     ctl = None
     # second basis: the eigenvectors of the operator (cosine modes) - a solver that drops or mis-scales ONE mode
     # leaves an O(1) residual there, while its trace in a unit impulse is O(1/n)
-    rhs_list = [("impulse", j) for j in cols] + [("const", 0), ("dense", 0)] + [("mode", k) for k in _modes(shape)]
+    # amplitude alphabet: the solve is LINEAR, so a right-hand side scaled by 1e-8 / 1e-20 / 1e10 must be solved to the
+    # same relative accuracy (no absolute thresholds anywhere)
+    rhs_list = [("impulse", j) for j in cols] + [("const", 0), ("dense", 0)] + [("mode", k) for k in _modes(shape)] + [("scaled", a) for a in AMPLITUDES]
     for kind, j in rhs_list:
         f = np.zeros(n, dtype=dtype)
         if kind == "impulse":
@@ -98,6 +101,8 @@ def case_basis(shape, dx, dtype):
             f[:] = m.ravel().astype(dtype)
         elif kind == "const":
             f[:] = 2.5
+        elif kind == "scaled":
+            f[:] = ((((np.arange(n) * 7) % 11) - 5) / 3.0 * j).astype(dtype)
         else:
             f[:] = (((np.arange(n) * 7) % 11) - 5) / 3.0
         f = f.reshape(shape)
@@ -265,6 +270,6 @@ def run(r) -> None:
     r.run_cases("history", "history", hist)
     seqs = [dict(shape=sh, order=list(o), dtype=dt) for sh in ((4, 6), (3, 4, 5), (4, 4, 4)) for o in itertools.permutations(range(3)) for dt in ("float64", "float32")]
     r.run_cases("construction-sequences", "sequence", seqs)
-    r.bounds = {"shapes": f"{{{s2.start}..{s2.stop-1}}}^2, {{{s3.start}..{s3.stop-1}}}^3 + " + str([s for s in shapes if max(s) > 5][:9]), "spacings": DXS + EXTREME_DXS, "history_depth": depth}
+    r.bounds = {"shapes": f"{{{s2.start}..{s2.stop-1}}}^2, {{{s3.start}..{s3.stop-1}}}^3 + " + str([s for s in shapes if max(s) > 5][:9]), "spacings": DXS + EXTREME_DXS, "rhs_amplitudes": [1.0] + AMPLITUDES, "history_depth": depth}
     r.extra["rule"] = "basis: one state per right-hand side (all unit impulses + all cosine eigenmodes + constant + dense) per shape/spacing/dtype; history: BFS states = bytes of all solver arrays"
     r.assumptions = ["LAPACK eigen-decomposition treated as opaque; residual tolerance 64 eps cond(A) ||f|| with the analytic condition number of the Neumann Laplacian"]
